@@ -32,7 +32,7 @@ Record report := mkReport {
 (* the upload configuration as internal/config.Config indexes it *)
 Record pconfig := mkPconfig {
   pc_name : bytes; pc_versions : list bytes;
-  pc_counters : list bytes;            (* expanded counter names *)
+  pc_counters : list bytes;            (* expanded counter names: flat_map expand of the configured names *)
   pc_stacks : list bytes
 }.
 Record config := mkConfig {
@@ -45,6 +45,20 @@ Record config := mkConfig {
    program's Counters entries; a stack iff its name (text before the first
    newline) is one of THAT program's Stacks entries.  The two tables are
    separate: a stack name is not an approved counter and vice versa. *)
+(* The documented meaning of a configured counter name (telemetry.CounterConfig:
+   "the collapsed counter: <chart>:{<bucket1>,<bucket2>,...}"): a name with a
+   bucket list stands for one counter per bucket, prefix ++ bucket; a name
+   without '{' stands for itself.  Mirrors internal/config.Expand:
+   Cut at the first "{", TrimSuffix "}", Split ",".  The model computes the
+   approved set from the RAW configuration with this function; it does not
+   take the expansion from the code under test. *)
+Definition expand (counter : bytes) : list bytes :=
+  let '(prefix, rest, found) := cut counter [123] in
+  if found then map (fun b => prefix ++ b) (split_byte (trim_suffix rest [125]) 44)
+  else [prefix].
+Definition mk_pconfig (name : bytes) (versions raw_counters stacks : list bytes) : pconfig :=
+  mkPconfig name versions (flat_map expand raw_counters) stacks.
+
 Definition mem (x : bytes) (l : list bytes) : bool := existsb (beq x) l.
 Definition has_program (cfg : config) (n : bytes) : bool :=
   existsb (fun p => beq n (pc_name p)) (cf_programs cfg).
